@@ -115,7 +115,7 @@ fn generate(rng: &mut Rng) -> C15Sc {
                 effective = peer;
                 kind = "no_proxy";
             }
-            Some((v1, v2)) => match rng.below(12) {
+            Some((v1, v2)) => match rng.below(13) {
                 0 | 1 | 2 => {
                     spec.preamble = Some(v1_header(&src, &dst));
                     valid = v1;
@@ -162,6 +162,19 @@ fn generate(rng: &mut Rng) -> C15Sc {
                     effective = peer;
                     kind = "absent";
                 }
+                12 => {
+                    // part of a header (or nothing at all), then silence with the connection held open: the
+                    // listener gives up at its deadline; nothing is served and no budget is consumed
+                    let mut h = if rng.chance(1, 2) { v1_header(&src, &dst) } else { v2_header(&src, &dst, false) };
+                    let keep = rng.range(0, h.len() as u64 - 1) as usize;
+                    h.truncate(keep);
+                    spec.preamble = if h.is_empty() { None } else { Some(h) };
+                    spec.mute_after = Some(0);
+                    spec.close_after = None;
+                    valid = false;
+                    effective = peer;
+                    kind = "header_never_completes";
+                }
                 _ => {
                     // the announced transport is a datagram one: still a header that announces a source
                     spec.preamble = Some(if rng.chance(1, 2) { v2_header_dgram(&src, &dst) } else { v2_header(&src, &dst, false) });
@@ -171,7 +184,7 @@ fn generate(rng: &mut Rng) -> C15Sc {
                 }
             },
         }
-        spec.close_on_end_ns = Some(0);
+        spec.close_on_end_ns = if kind == "header_never_completes" { None } else { Some(0) };
         // header and first frames may reach the server in one read
         spec.coalesce = rng.chance(1, 2);
         // a header may also trickle in: the connection is then admitted (and charged) when the header is
@@ -202,7 +215,8 @@ fn generate(rng: &mut Rng) -> C15Sc {
     C15Sc {
         net: NetScenario {
             seed: rng.next_u64(),
-            cfg: NetCfg { secret, expiry: None, max_frame: None, timeout_ns: secs(30), proxy, limiter, use_start: false },
+            // a short deadline makes the listener give up on silent clients inside the history (only when no valid header trickles in)
+            cfg: NetCfg { secret, expiry: None, max_frame: None, timeout_ns: if !slow_headers && rng.chance(1, 2) { secs(2) } else { secs(30) }, proxy, limiter, use_start: false },
             wall: Default::default(),
             services,
             clients,
@@ -336,7 +350,7 @@ impl Check for C15 {
         "exploration"
     }
     fn rule_text(&self) -> String {
-        "arrival histories of 1-40 connections through 1-3 load-balancer peers at gaps from {0, 100 ms, 500 ms, 1 s, 3 s, 9 s}; PROXY off or v1 / v2 / both enabled; per connection a header from an independent writer: v1 TCP4/TCP6, v2 PROXY TCP4/TCP6, v2 LOCAL, v1 UNKNOWN, bad signature, truncated + EOF, absent, or a version the configuration disables; announced sources from a pool of 1-5 IPs (one equal to a load-balancer IP); limiter off or duration 1 s / 8 s with limit 1-3; a fifth of the clients log in (so services and cookies see the address), the rest do a status exchange. Non-trivial = at least one connection was refused by the limiter or rejected for its header; distinct = distinct (event-order trace, header kinds) hash.".into()
+        "arrival histories of 1-40 connections through 1-3 load-balancer peers at gaps from {0, 100 ms, 500 ms, 1 s, 3 s, 9 s}; PROXY off or v1 / v2 / both enabled; per connection a header from an independent writer: v1 TCP4/TCP6, v2 PROXY TCP4/TCP6, v2 LOCAL, v1 UNKNOWN, bad signature, truncated + EOF, absent, part of a header followed by silence until the listener's deadline (2 s or 30 s), or a version the configuration disables; announced sources from a pool of 1-5 IPs (one equal to a load-balancer IP); limiter off or duration 1 s / 8 s with limit 1-3; a fifth of the clients log in (so services and cookies see the address), the rest do a status exchange. Non-trivial = at least one connection was refused by the limiter or rejected for its header; distinct = distinct (event-order trace, header kinds) hash.".into()
     }
     fn assumptions(&self) -> Vec<String> {
         vec![
@@ -360,7 +374,7 @@ impl Check for C15 {
         if !net_domain_ok(&sc.net) {
             return RunReport::default();
         }
-        if sc.meta.len() != sc.net.clients.len() || sc.net.cfg.use_start || sc.net.stop_at_ns.is_some() || sc.net.cfg.timeout_ns < secs(5) {
+        if sc.meta.len() != sc.net.clients.len() || sc.net.cfg.use_start || sc.net.stop_at_ns.is_some() || sc.net.cfg.timeout_ns < secs(2) || (sc.net.cfg.timeout_ns < secs(30) && sc.net.clients.iter().any(|c| !c.spec.cuts.is_empty())) {
             return RunReport::default();
         }
         if sc.net.cfg.limiter.is_some_and(|(d, l)| d == 0 || l == 0) {
@@ -378,7 +392,7 @@ impl Check for C15 {
                         "v2" | "v2_local" => v2,
                         _ => false,
                     };
-                    want_valid == m.valid && (k == "absent") == c.spec.preamble.is_none()
+                    want_valid == m.valid && if k == "header_never_completes" { c.spec.mute_after == Some(0) && c.spec.close_after.is_none() && c.spec.close_on_end_ns.is_none() } else { (k == "absent") == c.spec.preamble.is_none() }
                 }
             };
             if !consistent || !c.spec.mutations.is_empty() || !c.wplan.is_empty() || !matches!(c.spec.intent, 1 | 2) {
